@@ -472,6 +472,27 @@ static Result run_c11(const Case &c) {
         r.cls((uint32_t)lv < ref::V120 ? "claims_pre_1_2_0" : (uint32_t)lv > liberasurecode_get_version() ? "claims_future" : "claims_other_release");
         if (unsealed) r.cls("no_metadata_checksum");
     }
+    // constructed header class: the metadata checksum of the opposite-endian image is a byte palindrome (b0 b1 b1 b0), so
+    // that its stored word reads the same in both byte orders (2^-16 per header by chance; found by varying an unused
+    // checksum word of the native header and re-sealing it)
+    if (c.get("pal", 0) && !lv) {
+        static uint32_t T[256]; static bool init = false;
+        if (!init) { for (uint32_t i = 0; i < 256; i++) { uint32_t x = i; for (int b = 0; b < 8; b++) x = (x & 1) ? 0xedb88320u ^ (x >> 1) : x >> 1; T[i] = x; } init = true; }
+        std::vector<uint8_t> t(f.begin(), f.begin() + 80);
+        swap_fields(t.data());
+        uint32_t nonce = (uint32_t)c.get("asym_seed") * 2654435761u;
+        for (int tries = 0; tries < 1000000; tries++, nonce++) {
+            put32(&t[ref::O_CHK + 28], bswap32(nonce));
+            uint32_t crc = 0xffffffffu;
+            for (int i = 0; i < ref::META_LEN; i++) crc = T[(crc ^ t[i]) & 0xff] ^ (crc >> 8);
+            crc = ~crc;
+            if ((crc & 0xff) == (crc >> 24) && ((crc >> 8) & 0xff) == ((crc >> 16) & 0xff)) {
+                put32(&f[ref::O_CHK + 28], nonce); ref::reseal(f.data(), false);
+                r.cls("twin_metadata_checksum_palindromic");
+                break;
+            }
+        }
+    }
     bool corrupt = c.get("corrupt") && paylen > 0;
     if (corrupt) { int64_t a = c.get("carg"); f[80 + (a % (paylen * 8)) / 8] ^= (uint8_t)(1u << (a % 8)); r.cls("payload_corrupted"); }
     std::vector<uint8_t> tw = f;
@@ -514,6 +535,7 @@ static Case gen_c11() {
     c.set("carg", pick(0, 1 << 24));
     c.set("wenv", weighted({5, 1, 1, 4, 1}));
     c.set("renv", weighted({5, 1, 1, 3, 1}));
+    if (coin(1, 25)) c.set("pal", 1);
     if (coin(1, 3)) {
         int64_t v = weighted({3, 2, 1}) == 0 ? ((int64_t)1 << 16) | (pick(0, 1) << 8) | pick(0, 9)        // 1.0.x / 1.1.x
                                               : (pick(0, 2) << 16) | (pick(0, 9) << 8) | pick(0, 9);
